@@ -46,6 +46,18 @@ def numbering_oracle(ctx, case, steps, ctor_err):
             ctx.fail(suites.slim(case), f'level {st["level"]}: node keys are not 0..n-1: {keys[:10]}')
             continue
         shared = any(len(d.get('fragid', [])) != 1 for _, d in fine.nodes(data=True))
+        # "ordered by coarse-node membership": membership is the KEY of the coarse node the atom stems from — the
+        # block of coarse node k consists of atoms that report k's fragment name (a virtual node has no block)
+        cnames = {k: d.get('fragname') for k, d in meta.nodes(data=True)}
+        for n, d in fine.nodes(data=True):
+            for f in d.get('fragid', []):
+                if f not in cnames:
+                    ctx.fail(suites.slim(case), f'level {st["level"]}: atom {n} is numbered under coarse node {f}, which does not exist')
+                    break
+                if not shared and d.get('fragname') is not None and d.get('fragname') != cnames[f]:
+                    ctx.fail(suites.slim(case), f'level {st["level"]}: atom {n} of fragment {d.get("fragname")!r} is numbered in the '
+                                                f'block of coarse node {f} ({cnames[f]!r})')
+                    break
         if not shared:
             fids = [fine.nodes[k]['fragid'][0] for k in keys]
             if fids != sorted(fids):
